@@ -2,6 +2,7 @@ package types
 
 import (
 	"encoding/json"
+	"errors"
 	"github.com/LemoFoundationLtd/lemochain-core/common"
 	"github.com/LemoFoundationLtd/lemochain-core/common/hexutil"
 	"math/big"
@@ -93,12 +94,20 @@ type Box struct {
 	SubTxList Transactions `json:"subTxList"  gencodec:"required"`
 }
 
+var ErrBoxNilSubTx = errors.New("box transaction contains a null sub transaction")
+
 // GetBox
 func GetBox(txData []byte) (*Box, error) {
 	box := &Box{}
 	err := json.Unmarshal(txData, box)
 	if err != nil {
 		return nil, err
+	}
+	// a JSON null in subTxList decodes to a nil *Transaction; every caller dereferences the elements
+	for _, subTx := range box.SubTxList {
+		if subTx == nil {
+			return nil, ErrBoxNilSubTx
+		}
 	}
 	return box, nil
 }
